@@ -779,6 +779,13 @@ pub fn backpressure(rng: &mut Rng) -> Program {
     w.s_yield = 15;
     w.s_sleep = 40;
     w.s_interval_with = 3;
+    // one case in five: the actor hands out `ctx.weak_sender()`, and a client floods it through that handle
+    let export = g.rng.chance(1, 5);
+    if export {
+        g.prog.clients[0].push(Op::Call { slot: 0, script: vec![PStep::ExportWeakSender], cancel: None });
+        g.prog.clients[0].push(Op::ImportWeakSender { slot: 0 });
+        g.sk[0].push(SK { hk: Hk::WeakSender, a: 0 });
+    }
     g.gen_clients(&w, &Shape { clients: (1, 4), ops: (3, 9), final_wait_pct: 0 });
     g.prog
 }
